@@ -1,6 +1,663 @@
-//! C08 — not implemented yet.
-use crate::report::{Cfg, Report};
+//! C08 — descriptive statistics equal their textbook definitions (DESIGN §3 C08).
+//!
+//! Events: return values of `mean, welford_mean, var, sample_var, std, sample_std, covariance,
+//! sample_covariance, sample_covariance_onepass, sample_covariance_online, min, max, argmin, argmax,
+//! hist_bin_centers` and of the `Vector` / `Matrix` methods that wrap them.
+//! Oracle: exact rationals (`Rat`, i128) on small-integer data, a two-pass double-double reference on
+//! everything else; tolerance = the forward bound of a *stable* (updating or two-pass) algorithm,
+//!   B = 16·[ n·u·σxσy + n·u·(σx|μy| + σy|μx|) + (n·u)²|μxμy| ]         (u = 2^-53)
+//! — first term: rounding of the centred sum; second: first-order effect of the rounding of a running
+//! mean (Welford / Chan–Golub–LeVeque `n·u·κ`); third: second-order effect of a mean that is off by
+//! n·u·|μ| in a two-pass algorithm. A textbook E[xy]−E[x]E[y] evaluation is off by ≈ u·|μxμy| and
+//! violates B by ≈ |μ|/(32·n·σ) (≈ 300 at mean/sd = 1e8, n = 1e4). Metamorphic relations on the
+//! library's own outputs: exact shift, power-of-two scaling (bitwise), symmetry, cov(x,x) = var(x),
+//! agreement of the covariance algorithms. min/max by value (either zero for ±0), argmin/argmax first
+//! occurrence, hist_bin_centers against (e_i+e_{i+1})/2.
+use crate::gen::Rng;
+use crate::oracle::dd::{self, Dd, U};
+use crate::oracle::exact::Rat;
+use crate::report::{guard, jf, jnum, par_cases, same_bits, Cfg, Hasher, Report};
+use compute::linalg::{Matrix, Vector};
+use compute::statistics as st;
+use serde_json::{json, Value};
 
-pub fn run(_cfg: &Cfg, rep: &mut Report) {
-    rep.inconclusive("monitor for C08 not implemented".to_string());
+const C: f64 = 16.0;
+
+// ---------------------------------------------------------------------------------------------
+// references
+
+/// first and second moments of a data set (or a pair), as f64 values of an exact / double-double computation
+#[derive(Clone, Copy, Debug)]
+struct Mom {
+    n: usize,
+    mean: Dd,
+    /// Σ (x−mean)², exact or double-double
+    m2: f64,
+    max_abs: f64,
+}
+
+fn is_small_int(x: &[f64]) -> bool {
+    x.iter().all(|&v| v.fract() == 0.0 && v.abs() <= 1e6)
+}
+
+fn moments(x: &[f64], exact: bool) -> Mom {
+    let n = x.len();
+    let max_abs = x.iter().fold(0.0f64, |a, &v| a.max(v.abs()));
+    if exact {
+        let s: i128 = x.iter().map(|&v| v as i128).sum();
+        let q: i128 = x.iter().map(|&v| (v as i128) * (v as i128)).sum();
+        let mean = Dd::new(s as f64) / Dd::new(n as f64); // |s| <= 1e10: exact in f64
+        let m2 = Rat::new(n as i128 * q - s * s, n as i128).f();
+        Mom { n, mean, m2, max_abs }
+    } else {
+        let mean = dd::mean(x);
+        let mut m2 = Dd::ZERO;
+        for &v in x {
+            let d = Dd::new(v) - mean;
+            m2 = m2 + d * d;
+        }
+        Mom { n, mean, m2: m2.f().max(0.0), max_abs }
+    }
+}
+/// Σ (x−mx)(y−my)
+fn comoment(x: &[f64], y: &[f64], mx: &Mom, my: &Mom, exact: bool) -> f64 {
+    let n = x.len() as i128;
+    if exact {
+        let sx: i128 = x.iter().map(|&v| v as i128).sum();
+        let sy: i128 = y.iter().map(|&v| v as i128).sum();
+        let sxy: i128 = x.iter().zip(y).map(|(&a, &b)| (a as i128) * (b as i128)).sum();
+        Rat::new(n * sxy - sx * sy, n).f()
+    } else {
+        let mut c = Dd::ZERO;
+        for (&a, &b) in x.iter().zip(y) {
+            c = c + (Dd::new(a) - mx.mean) * (Dd::new(b) - my.mean);
+        }
+        c.f()
+    }
+}
+impl Mom {
+    fn sd_pop(&self) -> f64 {
+        (self.m2 / self.n as f64).sqrt()
+    }
+    fn mu(&self) -> f64 {
+        self.mean.f().abs()
+    }
+}
+/// the bound B for the population co-moment / n (see module doc); multiply by n/(n−1) for the sample version
+fn bound(a: &Mom, b: &Mom) -> f64 {
+    let nu = a.n as f64 * U;
+    let (sx, sy, mx, my) = (a.sd_pop(), b.sd_pop(), a.mu(), b.mu());
+    C * (nu * sx * sy + nu * (sx * my + sy * mx) + nu * nu * mx * my) + 1e-300
+}
+/// DESIGN's original formula c·n·ε·(σ² + ε·μ²), recorded for comparison only
+fn design_bound(a: &Mom, b: &Mom) -> f64 {
+    let e = f64::EPSILON;
+    C * a.n as f64 * e * (a.sd_pop() * b.sd_pop() + e * a.mu() * b.mu()) + 1e-300
+}
+fn ulp(x: f64) -> f64 {
+    let a = x.abs().max(f64::MIN_POSITIVE);
+    a.next_up() - a
+}
+
+// ---------------------------------------------------------------------------------------------
+// data classes
+
+const CLASSES: [&str; 8] = ["small-int", "gaussian", "offset", "constant", "sorted", "reversed", "ties", "signed-zeros"];
+
+fn gen_len(rng: &mut Rng, maxlen: usize, min: usize) -> usize {
+    let n = match rng.usize(0, 19) {
+        0 => 1,
+        1..=6 => rng.usize(2, 9),
+        7..=15 => rng.usize(10, 300),
+        _ => rng.log_range(301.0, 10_000.99).floor() as usize,
+    };
+    n.clamp(min, maxlen.max(min))
+}
+
+fn gen_data(rng: &mut Rng, class: &str, n: usize) -> Vec<f64> {
+    match class {
+        "small-int" => match rng.usize(0, 2) {
+            0 => rng.ints(n, -50, 50),
+            1 => rng.ints(n, 0, 1000),
+            _ => {
+                let base = rng.int(-100_000, 100_000);
+                (0..n).map(|_| (base + rng.int(-20, 20)) as f64).collect()
+            }
+        },
+        "gaussian" => {
+            let s = 10f64.powf(rng.range(-3.0, 3.0));
+            let m = rng.normal() * s;
+            (0..n).map(|_| m + s * rng.normal()).collect()
+        }
+        "offset" => {
+            let s = 10f64.powf(rng.range(-2.0, 2.0));
+            let m = s * 10f64.powf(rng.range(2.0, 8.0)) * if rng.bool() { 1.0 } else { -1.0 };
+            (0..n).map(|_| m + s * rng.normal()).collect()
+        }
+        "constant" => {
+            let c = match rng.usize(0, 3) {
+                0 => rng.int(-5, 5) as f64,
+                1 => 0.1,
+                2 => rng.normal() * 1e8,
+                _ => rng.normal(),
+            };
+            vec![c; n]
+        }
+        "sorted" | "reversed" => {
+            let off = if rng.chance(0.3) { 1e6 } else { 0.0 };
+            let mut v: Vec<f64> = (0..n).map(|_| off + rng.normal()).collect();
+            v.sort_by(|a, b| a.partial_cmp(b).unwrap());
+            if class == "reversed" {
+                v.reverse();
+            }
+            v
+        }
+        "ties" => {
+            let k = rng.usize(1, 5);
+            let pool: Vec<f64> = (0..k).map(|_| if rng.bool() { rng.int(-3, 3) as f64 } else { rng.normal() }).collect();
+            (0..n).map(|_| *rng.choose(&pool)).collect()
+        }
+        _ => {
+            // signed zeros, optionally with a few one-signed non-zero values so that a zero is the extreme
+            let extra = rng.usize(0, 2);
+            (0..n)
+                .map(|_| match rng.usize(0, 5) {
+                    0 | 1 => 0.0,
+                    2 | 3 => -0.0,
+                    _ => match extra {
+                        0 => 0.0,
+                        1 => rng.f64() + 0.5,
+                        _ => -rng.f64() - 0.5,
+                    },
+                })
+                .collect()
+        }
+    }
+}
+
+// ---------------------------------------------------------------------------------------------
+// single-vector statistics through one API
+
+struct Stats1 {
+    mean: f64,
+    welford_mean: Option<f64>,
+    var: f64,
+    sample_var: f64,
+    std: f64,
+    sample_std: f64,
+    min: f64,
+    max: f64,
+    argmin: usize,
+    argmax: usize,
+}
+
+fn call_api(api: &str, x: &[f64], shape: (usize, usize)) -> Result<Stats1, String> {
+    guard(|| match api {
+        "free" => Stats1 {
+            mean: st::mean(x),
+            welford_mean: Some(st::welford_mean(x)),
+            var: st::var(x),
+            sample_var: st::sample_var(x),
+            std: st::std(x),
+            sample_std: st::sample_std(x),
+            min: st::min(x),
+            max: st::max(x),
+            argmin: st::argmin(x),
+            argmax: st::argmax(x),
+        },
+        "vector" => {
+            let v = Vector::from(x.to_vec());
+            Stats1 { mean: v.mean(), welford_mean: None, var: v.var(), sample_var: v.sample_var(), std: v.std(), sample_std: v.sample_std(), min: v.min(), max: v.max(), argmin: v.argmin(), argmax: v.argmax() }
+        }
+        _ => {
+            let m = Matrix::new(x.to_vec(), shape.0 as i32, shape.1 as i32);
+            let (r0, c0) = m.argmin();
+            let (r1, c1) = m.argmax();
+            // (row, col) -> flat index; an out-of-shape position maps to an impossible index
+            let flat = |r: usize, c: usize| if r < shape.0 && c < shape.1 { r * shape.1 + c } else { usize::MAX };
+            Stats1 { mean: m.mean(), welford_mean: None, var: m.var(), sample_var: m.sample_var(), std: m.std(), sample_std: m.sample_std(), min: m.min(), max: m.max(), argmin: flat(r0, c0), argmax: flat(r1, c1) }
+        }
+    })
+}
+
+fn check_single(rep: &mut Report, class: &str, x: &[f64], rng: &mut Rng) {
+    let n = x.len();
+    let exact = class == "small-int" && is_small_int(x);
+    let m = moments(x, exact);
+    let b_pop = bound(&m, &m);
+    let b_smp = if n > 1 { b_pop * n as f64 / (n as f64 - 1.0) } else { f64::NAN };
+    let var_pop = m.m2 / n as f64;
+    let var_smp = m.m2 / (n as f64 - 1.0);
+    let std_tol = |v: f64, b: f64| (b / v.sqrt()).min(b.sqrt()) + 4.0 * U * v.sqrt() + 1e-300;
+    let mean_tol = 8.0 * n as f64 * U * m.max_abs + 1e-300;
+    // reference extremes
+    let (mut rmin, mut rmax, mut imin, mut imax) = (x[0], x[0], 0usize, 0usize);
+    for (i, &v) in x.iter().enumerate() {
+        if v < rmin {
+            rmin = v;
+            imin = i;
+        }
+        if v > rmax {
+            rmax = v;
+            imax = i;
+        }
+    }
+    // a random r×c shape with r·c = n
+    let divs: Vec<usize> = (1..=n.min(64)).filter(|d| n % d == 0).collect();
+    let r = *rng.choose(&divs);
+    let shape = if rng.bool() { (r, n / r) } else { (n / r, r) };
+    for api in ["free", "vector", "matrix"] {
+        let regime = format!("{}:{}", api, class);
+        rep.case(&regime);
+        let ctx = |stat: &str, obs: Value, exp: Value, extra: Value| json!({"api": api, "stat": stat, "class": class, "n": n, "matrix_shape": if api == "matrix" { json!([shape.0, shape.1]) } else { json!(null) }, "data": jf(x), "observed": obs, "expected": exp, "detail": extra});
+        let s = match call_api(api, x, shape) {
+            Err(msg) => {
+                rep.check("C08.no_panic", &regime, false, || ctx("*", json!({"panic": msg}), json!("values"), json!(null)));
+                continue;
+            }
+            Ok(s) => s,
+        };
+        rep.check("C08.no_panic", &regime, true, || json!(null));
+        rep.note_add("library_calls", if api == "free" { 10.0 } else { 9.0 });
+        // means
+        let mut means = vec![("mean", s.mean)];
+        if let Some(w) = s.welford_mean {
+            means.push(("welford_mean", w));
+        }
+        for (name, v) in means {
+            let err = (Dd::new(v) - m.mean).f().abs();
+            let tol = if exact && name == "mean" { ulp(m.mean.f()) } else { mean_tol };
+            if !(exact && name == "mean") {
+                rep.note_max(&format!("worst_ratio.{}", name), if err.is_nan() { f64::INFINITY } else { err / tol });
+            } else {
+                rep.note_max("worst_ulps.mean.small-int", err / ulp(m.mean.f()));
+            }
+            rep.check(&format!("C08.{}", name), &regime, err <= tol, || ctx(name, jnum(v), json!(m.mean.f()), json!({"abs_err": jnum(err), "tol": tol, "oracle": if exact { "exact rational" } else { "double-double" }})));
+        }
+        // variances / standard deviations
+        let mut vs = vec![("var", s.var, var_pop, b_pop, false)];
+        vs.push(("std", s.std, var_pop, b_pop, true));
+        if n >= 2 {
+            vs.push(("sample_var", s.sample_var, var_smp, b_smp, false));
+            vs.push(("sample_std", s.sample_std, var_smp, b_smp, true));
+        }
+        for (name, v, refvar, b, is_sd) in vs {
+            let (want, tol) = if is_sd { (refvar.sqrt(), std_tol(refvar, b)) } else { (refvar, b) };
+            let err = (v - want).abs();
+            rep.note_max(&format!("worst_ratio.{}", name), if err.is_nan() { f64::INFINITY } else { err / tol });
+            if !is_sd {
+                let db = design_bound(&m, &m) * if name == "sample_var" { n as f64 / (n as f64 - 1.0) } else { 1.0 };
+                rep.note_max(&format!("info.worst_ratio_vs_DESIGN_formula.{}.{}", name, if class == "offset" { "offset" } else { "other" }), err / db);
+            }
+            rep.check(&format!("C08.{}", name), &regime, err <= tol, || ctx(name, jnum(v), json!(want), json!({"abs_err": jnum(err), "tol": tol, "mean": m.mean.f(), "sd": m.sd_pop(), "oracle": if exact { "exact rational" } else { "double-double" }})));
+        }
+        // extremes
+        rep.check("C08.min", &regime, s.min == rmin, || ctx("min", jnum(s.min), jnum(rmin), json!(null)));
+        rep.check("C08.max", &regime, s.max == rmax, || ctx("max", jnum(s.max), jnum(rmax), json!(null)));
+        rep.check("C08.argmin", &regime, s.argmin == imin, || ctx("argmin", json!(s.argmin), json!(imin), json!({"min": jnum(rmin)})));
+        rep.check("C08.argmax", &regime, s.argmax == imax, || ctx("argmax", json!(s.argmax), json!(imax), json!({"max": jnum(rmax)})));
+    }
+    let ties_min = x.iter().filter(|&&v| v == rmin).count();
+    if ties_min > 1 && imin > 0 {
+        rep.seen("extreme:tied-min-not-at-0", 1);
+    }
+    if x.iter().filter(|&&v| v == rmax).count() > 1 && imax > 0 {
+        rep.seen("extreme:tied-max-not-at-0", 1);
+    }
+    rep.distinct(Hasher::new().s("single").fs(x).finish(), n >= 2 && rmin != rmax);
+    rep.sample(|| json!({"kind": "single", "class": class, "n": n, "data_head": jf(&x[..n.min(6)]), "ref_mean": m.mean.f(), "ref_var": var_pop}));
+}
+
+// ---------------------------------------------------------------------------------------------
+// covariance algorithms on paired data
+
+const PAIR_CLASSES: [&str; 8] = ["small-int", "gaussian", "offset", "constant", "sorted", "ties", "signed-zeros", "identical"];
+
+fn gen_pair(rng: &mut Rng, class: &str, n: usize) -> (Vec<f64>, Vec<f64>) {
+    match class {
+        "gaussian" | "offset" => {
+            let x = gen_data(rng, class, n);
+            let rho = rng.range(-1.0, 1.0);
+            let s = 10f64.powf(rng.range(-2.0, 2.0));
+            let my = if class == "offset" { s * 10f64.powf(rng.range(2.0, 8.0)) * if rng.bool() { 1.0 } else { -1.0 } } else { rng.normal() * s };
+            let mx = dd::mean(&x).f();
+            let sx = moments(&x, false).sd_pop().max(1e-300);
+            let y = x.iter().map(|&v| my + s * (rho * (v - mx) / sx + (1.0 - rho * rho).sqrt() * rng.normal())).collect();
+            (x, y)
+        }
+        "identical" => {
+            let c = *rng.choose(&["small-int", "gaussian", "offset", "ties"]);
+            let x = gen_data(rng, c, n);
+            (x.clone(), x)
+        }
+        "constant" => {
+            let x = gen_data(rng, "constant", n);
+            let y = if rng.bool() { gen_data(rng, "constant", n) } else { gen_data(rng, "gaussian", n) };
+            if rng.bool() {
+                (x, y)
+            } else {
+                (y, x)
+            }
+        }
+        "sorted" => {
+            let x = gen_data(rng, "sorted", n);
+            let cy = *rng.choose(&["sorted", "reversed", "gaussian"]);
+            let y = gen_data(rng, cy, n);
+            (x, y)
+        }
+        c => (gen_data(rng, c, n), gen_data(rng, c, n)),
+    }
+}
+
+struct Cov4 {
+    pop: f64,
+    smp: f64,
+    onepass: f64,
+    online: f64,
+}
+fn cov4(x: &[f64], y: &[f64]) -> Result<Cov4, String> {
+    guard(|| Cov4 { pop: st::covariance(x, y), smp: st::sample_covariance(x, y), onepass: st::sample_covariance_onepass(x, y), online: st::sample_covariance_online(x, y) })
+}
+const ALGOS: [&str; 4] = ["twopass_pop", "twopass_sample", "onepass", "online"];
+impl Cov4 {
+    fn get(&self, a: &str) -> f64 {
+        match a {
+            "twopass_pop" => self.pop,
+            "twopass_sample" => self.smp,
+            "onepass" => self.onepass,
+            _ => self.online,
+        }
+    }
+    fn js(&self) -> Value {
+        json!({"covariance": jnum(self.pop), "sample_covariance": jnum(self.smp), "sample_covariance_onepass": jnum(self.onepass), "sample_covariance_online": jnum(self.online)})
+    }
+}
+
+fn check_pair(rep: &mut Report, class: &str, x: &[f64], y: &[f64]) {
+    let n = x.len();
+    let nf = n as f64;
+    let exact = is_small_int(x) && is_small_int(y);
+    let oracle = if exact { "exact-rational" } else { "double-double" };
+    rep.case(&format!("pair:{}", class));
+    rep.seen(&format!("pair-oracle:{}", oracle), 1);
+    let (mx, my) = (moments(x, exact), moments(y, exact));
+    let co = comoment(x, y, &mx, &my, exact);
+    let b_pop = bound(&mx, &my);
+    let b_smp = b_pop * nf / (nf - 1.0);
+    let ctx = |obs: Value, exp: Value, extra: Value| json!({"class": class, "n": n, "x": jf(x), "y": jf(y), "observed": obs, "expected": exp, "oracle": oracle, "detail": extra});
+    let c = match cov4(x, y) {
+        Err(msg) => {
+            rep.check("C08.cov.no_panic", &format!("pair:{}", class), false, || ctx(json!({"panic": msg}), json!("values"), json!(null)));
+            return;
+        }
+        Ok(c) => c,
+    };
+    rep.note_add("library_calls", 4.0);
+    // each algorithm against the reference
+    for a in ALGOS {
+        let (want, tol) = if a == "twopass_pop" { (co / nf, b_pop) } else { (co / (nf - 1.0), b_smp) };
+        let v = c.get(a);
+        let err = (v - want).abs();
+        let healthy = a.starts_with("twopass");
+        rep.note_max(&format!("{}.cov.{}", if healthy { "worst_ratio" } else { "observed_worst_ratio" }, a), if err.is_nan() { f64::INFINITY } else { err / tol });
+        if healthy {
+            rep.note_max(&format!("info.worst_ratio_vs_DESIGN_formula.cov.{}", a), err / (design_bound(&mx, &my) * if a == "twopass_pop" { 1.0 } else { nf / (nf - 1.0) }));
+        }
+        rep.check(&format!("C08.cov.{}", a), oracle, err <= tol, || ctx(jnum(v), json!(want), json!({"algorithm": a, "abs_err": jnum(err), "tol": tol, "all_four": c.js(), "mean_x": mx.mean.f(), "mean_y": my.mean.f(), "sd_x": mx.sd_pop(), "sd_y": my.sd_pop()})));
+    }
+    // the algorithms agree with one another (anchor: two-pass sample covariance), on the library's own outputs
+    for (a, v) in [("twopass_pop", c.pop * nf / (nf - 1.0)), ("onepass", c.onepass), ("online", c.online)] {
+        let err = (v - c.smp).abs();
+        let tol = 2.0 * b_smp + 4.0 * U * c.smp.abs();
+        rep.check("C08.cov.agree", &format!("{}~twopass_sample", a), err <= tol, || ctx(c.js(), json!("equal after the n/(n-1) factor"), json!({"pair": a, "abs_diff": jnum(err), "tol": tol})));
+    }
+    // symmetry and cov(x,x) = var(x)
+    match (cov4(y, x), cov4(x, x), guard(|| (st::var(x), st::sample_var(x)))) {
+        (Ok(cs), Ok(cxx), Ok((vx, svx))) => {
+            rep.note_add("library_calls", 10.0);
+            for a in ALGOS {
+                let err = (c.get(a) - cs.get(a)).abs();
+                let tol = 2.0 * if a == "twopass_pop" { b_pop } else { b_smp };
+                rep.check("C08.cov.symmetry", a, err <= tol, || ctx(json!({"cov(x,y)": jnum(c.get(a)), "cov(y,x)": jnum(cs.get(a))}), json!("equal"), json!({"algorithm": a, "tol": tol})));
+            }
+            let bx = bound(&mx, &mx);
+            let e1 = (cxx.pop - vx).abs();
+            rep.check("C08.cov.self_is_var", "twopass_pop", e1 <= 2.0 * bx, || ctx(json!({"covariance(x,x)": jnum(cxx.pop), "var(x)": jnum(vx)}), json!("equal"), json!({"tol": 2.0 * bx})));
+            let e2 = (cxx.smp - svx).abs();
+            rep.check("C08.cov.self_is_var", "twopass_sample", e2 <= 2.0 * bx * nf / (nf - 1.0), || ctx(json!({"sample_covariance(x,x)": jnum(cxx.smp), "sample_var(x)": jnum(svx)}), json!("equal"), json!({"tol": 2.0 * bx * nf / (nf - 1.0)})));
+        }
+        (a, b, d) => {
+            let msg = a.err().or(b.err()).or(d.err()).unwrap_or_default();
+            rep.check("C08.cov.no_panic", &format!("pair:{}", class), false, || ctx(json!({"panic": msg}), json!("values"), json!(null)));
+        }
+    }
+    rep.distinct(Hasher::new().s("pair").fs(x).fs(y).finish(), mx.m2 > 0.0 && my.m2 > 0.0);
+    rep.sample(|| json!({"kind": "pair", "class": class, "n": n, "x_head": jf(&x[..n.min(5)]), "y_head": jf(&y[..n.min(5)]), "ref_sample_cov": co / (nf - 1.0), "library": c.js()}));
+}
+
+// ---------------------------------------------------------------------------------------------
+// metamorphic relations with exact data transformations
+
+/// data on the grid 2^-16·Z with |x| < 64, so that x + c (c on the same grid, |c| < 2^34) and 2^k·x are exact
+fn grid_data(rng: &mut Rng, n: usize) -> Vec<f64> {
+    let s = rng.range(0.05, 8.0);
+    (0..n).map(|_| ((rng.normal() * s).clamp(-60.0, 60.0) * 65536.0).round() / 65536.0).collect()
+}
+
+fn metamorphic(rng: &mut Rng, rep: &mut Report, maxlen: usize) {
+    let n = gen_len(rng, maxlen, 2);
+    let x = grid_data(rng, n);
+    let y = grid_data(rng, n);
+    let shift = |rng: &mut Rng| -> f64 {
+        let mag = 10f64.powf(rng.range(0.0, 9.0)).min(8e9);
+        (mag * rng.range(0.5, 1.0) * 65536.0).round() / 65536.0 * if rng.bool() { 1.0 } else { -1.0 }
+    };
+    let (cx, cy) = (shift(rng), shift(rng));
+    let xs: Vec<f64> = x.iter().map(|&v| v + cx).collect();
+    let ys: Vec<f64> = y.iter().map(|&v| v + cy).collect();
+    // the shift really is exact
+    let exact_shift = x.iter().zip(&xs).all(|(&a, &b)| (Dd::sum2(a, cx) - Dd::new(b)).f() == 0.0) && y.iter().zip(&ys).all(|(&a, &b)| (Dd::sum2(a, cy) - Dd::new(b)).f() == 0.0);
+    if !exact_shift {
+        rep.inconclusive(format!("metamorphic generator produced an inexact shift (cx={}, cy={})", cx, cy));
+        return;
+    }
+    let nf = n as f64;
+    let big = cx.abs().max(cy.abs());
+    let sreg = if big >= 1e6 { "shift>=1e6" } else { "shift<1e6" };
+    rep.case(&format!("meta:{}", sreg));
+    let (mx, my, mxs, mys) = (moments(&x, false), moments(&y, false), moments(&xs, false), moments(&ys, false));
+    let ctx = |obs: Value, extra: Value| json!({"n": n, "x": jf(&x), "y": jf(&y), "shift_x": cx, "shift_y": cy, "observed": obs, "detail": extra});
+    let r = guard(|| (st::var(&x), st::var(&xs), st::sample_var(&x), st::sample_var(&xs), st::std(&x), st::std(&xs)));
+    let (c0, c1) = (cov4(&x, &y), cov4(&xs, &ys));
+    rep.note_add("library_calls", 14.0);
+    match (r, c0, c1) {
+        (Ok((v0, v1, sv0, sv1, sd0, sd1)), Ok(c0), Ok(c1)) => {
+            let b = bound(&mx, &mx) + bound(&mxs, &mxs);
+            rep.note_max("worst_ratio.shift.var", (v0 - v1).abs() / b);
+            rep.check("C08.shift_invariance.var", sreg, (v0 - v1).abs() <= b, || ctx(json!({"var(x)": v0, "var(x+c)": v1}), json!({"tol": b})));
+            let bs = b * nf / (nf - 1.0);
+            rep.check("C08.shift_invariance.sample_var", sreg, (sv0 - sv1).abs() <= bs, || ctx(json!({"sample_var(x)": sv0, "sample_var(x+c)": sv1}), json!({"tol": bs})));
+            let tsd = (b / sd0.max(1e-300)).min(b.sqrt()) + 8.0 * U * sd0;
+            rep.check("C08.shift_invariance.std", sreg, (sd0 - sd1).abs() <= tsd, || ctx(json!({"std(x)": sd0, "std(x+c)": sd1}), json!({"tol": tsd})));
+            let bc = bound(&mx, &my) + bound(&mxs, &mys);
+            for a in ALGOS {
+                let tol = if a == "twopass_pop" { bc } else { bc * nf / (nf - 1.0) };
+                let err = (c0.get(a) - c1.get(a)).abs();
+                let healthy = a != "online";
+                rep.note_max(&format!("{}.shift.cov.{}", if healthy { "worst_ratio" } else { "observed_worst_ratio" }, a), if err.is_nan() { f64::INFINITY } else { err / tol });
+                rep.check("C08.shift_invariance.cov", a, err <= tol, || ctx(json!({"cov(x,y)": jnum(c0.get(a)), "cov(x+c,y+d)": jnum(c1.get(a))}), json!({"algorithm": a, "tol": tol})));
+            }
+        }
+        (a, b, c) => {
+            let msg = a.err().or(b.err()).or(c.err()).unwrap_or_default();
+            rep.check("C08.no_panic", "meta", false, || ctx(json!({"panic": msg}), json!(null)));
+        }
+    }
+    // power-of-two scaling: every operation of a homogeneous algorithm commutes with it, so bitwise
+    let (kx, ky) = (rng.int(-30, 30) as i32, rng.int(-30, 30) as i32);
+    let (sx, sy) = (2f64.powi(kx) * if rng.bool() { 1.0 } else { -1.0 }, 2f64.powi(ky) * if rng.bool() { 1.0 } else { -1.0 });
+    let (data_x, data_y) = if rng.bool() { (&xs, &ys) } else { (&x, &y) };
+    let zx: Vec<f64> = data_x.iter().map(|&v| v * sx).collect();
+    let zy: Vec<f64> = data_y.iter().map(|&v| v * sy).collect();
+    rep.case("meta:scale-2^k");
+    let ctx2 = |obs: Value| json!({"n": n, "x": jf(data_x), "y": jf(data_y), "scale_x": sx, "scale_y": sy, "observed": obs});
+    let r0 = guard(|| (st::mean(data_x), st::welford_mean(data_x), st::var(data_x), st::sample_var(data_x), st::std(data_x), st::sample_std(data_x)));
+    let r1 = guard(|| (st::mean(&zx), st::welford_mean(&zx), st::var(&zx), st::sample_var(&zx), st::std(&zx), st::sample_std(&zx)));
+    rep.note_add("library_calls", 20.0);
+    match (r0, r1, cov4(data_x, data_y), cov4(&zx, &zy)) {
+        (Ok(p), Ok(q), Ok(c0), Ok(c1)) => {
+            let pairs = [("mean", p.0 * sx, q.0), ("welford_mean", p.1 * sx, q.1), ("var", p.2 * sx * sx, q.2), ("sample_var", p.3 * sx * sx, q.3), ("std", p.4 * sx.abs(), q.4), ("sample_std", p.5 * sx.abs(), q.5)];
+            for (name, want, got) in pairs {
+                rep.check("C08.scaling_pow2", name, same_bits(want, got) || (want == 0.0 && got == 0.0), || ctx2(json!({"stat": name, "s^k * stat(x)": jnum(want), "stat(s*x)": jnum(got)})));
+            }
+            for a in ALGOS {
+                let (want, got) = (c0.get(a) * sx * sy, c1.get(a));
+                rep.check("C08.scaling_pow2", &format!("cov.{}", a), same_bits(want, got) || (want == 0.0 && got == 0.0), || ctx2(json!({"stat": a, "s*t*cov(x,y)": jnum(want), "cov(s*x,t*y)": jnum(got)})));
+            }
+        }
+        (a, b, c, d) => {
+            let msg = a.err().or(b.err()).or(c.err()).or(d.err()).unwrap_or_default();
+            rep.check("C08.no_panic", "meta", false, || ctx2(json!({"panic": msg})));
+        }
+    }
+    rep.distinct(Hasher::new().s("meta").fs(&x).fs(&y).f(cx).f(cy).finish(), mx.m2 > 0.0);
+}
+
+// ---------------------------------------------------------------------------------------------
+// histogram bin centres
+
+fn hist(rng: &mut Rng, rep: &mut Report, maxlen: usize) {
+    let nb = match rng.usize(0, 5) {
+        0 => 1,
+        1 | 2 => rng.usize(2, 8),
+        _ => rng.usize(9, 500.min(maxlen)),
+    };
+    let ne = nb + 1;
+    let kind = rng.usize(0, 2);
+    let (mut regime, edges): (&str, Vec<f64>) = match kind {
+        0 => {
+            // exactly uniform: e_0 and the width are small dyadic numbers
+            let (e0, h) = (rng.int(-4096, 4096) as f64 / 16.0, rng.int(1, 64) as f64 / 16.0);
+            ("uniform:dyadic", (0..ne).map(|i| e0 + i as f64 * h).collect())
+        }
+        1 => {
+            let (lo, w) = (rng.range(-100.0, 100.0), rng.log_range(0.01, 100.0));
+            let h = w / nb as f64;
+            ("uniform:linspace", (0..ne).map(|i| lo + i as f64 * h).collect())
+        }
+        _ => {
+            let (mut c, sc) = (rng.range(-100.0, 100.0), rng.log_range(0.01, 10.0));
+            let r = *rng.choose(&[2.0, 10.0, 1e3]);
+            let mut v = Vec::with_capacity(ne);
+            for _ in 0..ne {
+                v.push(c);
+                c += sc * rng.log_range(1.0, r);
+            }
+            ("non-uniform", v)
+        }
+    };
+    if nb == 1 {
+        regime = "single-bin";
+    }
+    rep.case(&format!("hist:{}", regime));
+    rep.distinct(Hasher::new().s("hist").fs(&edges).finish(), nb >= 2);
+    let got = guard(|| st::hist_bin_centers(&edges).v.clone());
+    rep.note_add("library_calls", 1.0);
+    let ctx = |obs: Value, extra: Value| json!({"edges": jf(&edges), "n_edges": ne, "observed": obs, "detail": extra});
+    match got {
+        Err(msg) => {
+            rep.check("C08.hist_bin_centers.no_panic", regime, false, || ctx(json!({"panic": msg}), json!(null)));
+        }
+        Ok(v) => {
+            if !rep.check("C08.hist_bin_centers.len", regime, v.len() == nb, || ctx(jf(&v), json!({"expected_len": nb, "returned_len": v.len()}))) {
+                return;
+            }
+            let mut worst = 0.0f64;
+            let mut first_bad: Option<(usize, f64, f64)> = None;
+            for i in 0..nb {
+                let want = (Dd::sum2(edges[i], edges[i + 1]) * Dd::new(0.5)).f();
+                // within 2 ulp of the centre (ulp taken at the larger edge magnitude: the centre may cancel)
+                let tol = 2.0 * ulp(edges[i].abs().max(edges[i + 1].abs()));
+                if regime == "uniform:linspace" {
+                    rep.note_max("info.worst_ratio.hist_linspace_vs_strict_2ulp", (v[i] - want).abs() / tol);
+                }
+                // inexactly uniform grids: the cumulative construction the anchor describes carries the
+                // rounding of i additions; that is still a rounding-level (γ_i) error, not a wrong formula
+                let tol = if regime == "uniform:linspace" { tol + (i as f64) * U * edges[0].abs().max(edges[nb].abs()) } else { tol };
+                let err = (v[i] - want).abs();
+                worst = worst.max(if err.is_nan() { f64::INFINITY } else { err / tol });
+                if !(err <= tol) && first_bad.is_none() {
+                    first_bad = Some((i, v[i], want));
+                }
+            }
+            rep.note_max(&format!("{}.hist_bin_centers.{}", if regime == "non-uniform" { "observed_worst_ratio" } else { "worst_ratio" }, regime), worst);
+            rep.check("C08.hist_bin_centers", regime, first_bad.is_none(), || {
+                let (i, o, w) = first_bad.unwrap();
+                ctx(jf(&v), json!({"first_wrong_bin": i, "observed_centre": jnum(o), "expected_centre": w, "bin": [edges[i], edges[i + 1]], "worst_err_over_tol": jnum(worst)}))
+            });
+        }
+    }
+}
+
+pub fn run(cfg: &Cfg, rep: &mut Report) {
+    rep.rule = "data sets of length 1..1e4 (>= 2 for sample statistics and pairs) from 8 classes (small integers, gaussian, offset with mean/sd 1e2..1e8, constant, sorted, reversed, ties, signed zeros), each pushed through the free functions, the Vector methods and the Matrix methods (random r x c shape); pairs from 8 classes (incl. identical and constant) through the four covariance algorithms; grid data with exact shifts up to 8e9 and exact 2^k scalings for the metamorphic relations; uniform (dyadic and linspace) and non-uniform bin edges (2..501 edges). one evaluation = one data set through one API (9-24 library calls, see notes.library_calls). non-trivial = length >= 2 and not constant (hist: >= 2 bins); distinct by bits of the data".into();
+    rep.assume("all data finite; empty input and sample statistics of a single value are outside the quantifier");
+    rep.assume("'rounding-error bound of a numerically stable algorithm' is read as B = 16[n u sx sy + n u (sx|my| + sy|mx|) + (n u)^2 |mx my|] for (co)variances (Welford's own n·u·kappa bound is the middle term; DESIGN's tighter c·n·eps·(s^2 + eps·mu^2) is recorded under info.worst_ratio_vs_DESIGN_formula.* for comparison), 8 n u max|x| for means (1 ulp for `mean` of small integers), B/sd resp. sqrt(B) for standard deviations");
+    rep.assume("min/max are compared by value (either zero accepted for +-0); argmin/argmax = first index whose value equals the extreme");
+    rep.assume("power-of-two scaling is required bitwise (every algorithm built from + - * / and sqrt commutes with it when nothing under/overflows; data magnitudes keep 2^±60 away from the limits)");
+    rep.assume("hist_bin_centers: 2 ulp of the larger edge magnitude; on inexactly uniform (linspace) edges an extra i·u·max|e| is allowed for bin i (accumulated rounding of a cumulative construction)");
+    let maxlen = if cfg.miri() { 24 } else { 10_000 };
+    let n_single = cfg.pick(1600, 32000, 8);
+    let n_pair = cfg.pick(1000, 20000, 8);
+    let n_meta = cfg.pick(400, 8000, 3);
+    let n_hist = cfg.pick(600, 6000, 6);
+    par_cases(cfg, rep, 1, n_single, |i, rng, rep| {
+        let class = CLASSES[i % CLASSES.len()];
+        let n = gen_len(rng, maxlen, 1);
+        let x = gen_data(rng, class, n);
+        check_single(rep, class, &x, rng);
+        rep.seen(if n == 1 { "len=1" } else if n <= 9 { "len=2..9" } else if n <= 300 { "len=10..300" } else { "len>300" }, 1);
+    });
+    par_cases(cfg, rep, 2, n_pair, |i, rng, rep| {
+        let class = PAIR_CLASSES[i % PAIR_CLASSES.len()];
+        let n = gen_len(rng, maxlen, 2);
+        let (x, y) = gen_pair(rng, class, n);
+        check_pair(rep, class, &x, &y);
+    });
+    par_cases(cfg, rep, 3, n_meta, |_i, rng, rep| metamorphic(rng, rep, maxlen));
+    par_cases(cfg, rep, 4, n_hist, |_i, rng, rep| hist(rng, rep, maxlen));
+    // the DESIGN probes, literally
+    par_cases(cfg, rep, 5, 1, |_i, _rng, rep| {
+        let e = [0.0, 1.0, 3.0, 7.0];
+        rep.case("hist:non-uniform");
+        let got = guard(|| st::hist_bin_centers(&e).v.clone());
+        rep.check("C08.hist_bin_centers", "non-uniform", matches!(&got, Ok(v) if v.as_slice() == [0.5, 2.0, 5.0]), || json!({"edges": jf(&e), "observed": got.as_ref().map(|v| jf(v)).unwrap_or(json!("panic")), "expected": [0.5, 2.0, 5.0]}));
+        check_pair(rep, "small-int", &[1.0, 2.0, 4.0, 7.0], &[1.0, 3.0, 2.0, 5.0]);
+        // ties: first occurrence
+        let t = [2.0, 1.0, 3.0, 1.0, 3.0];
+        rep.case("free:ties");
+        let r = guard(|| (st::argmin(&t), st::argmax(&t)));
+        rep.check("C08.argmin", "free:ties", matches!(r, Ok((1, _))), || json!({"data": jf(&t), "observed": format!("{:?}", r), "expected": 1}));
+        rep.check("C08.argmax", "free:ties", matches!(r, Ok((_, 2))), || json!({"data": jf(&t), "observed": format!("{:?}", r), "expected": 2}));
+    });
+    for api in ["free", "vector", "matrix"] {
+        for c in CLASSES {
+            rep.require(&format!("{}:{}", api, c), 1);
+        }
+    }
+    for c in PAIR_CLASSES {
+        rep.require(&format!("pair:{}", c), 1);
+    }
+    rep.require("meta:scale-2^k", 1);
+    rep.require("hist:non-uniform", 1);
+    if !cfg.miri() {
+        for r in ["pair-oracle:exact-rational", "pair-oracle:double-double", "hist:uniform:dyadic", "hist:uniform:linspace"] {
+            rep.require(r, 1);
+        }
+    }
+    if !cfg.lite {
+        for r in ["meta:shift>=1e6", "meta:shift<1e6", "hist:single-bin", "len=1", "len=2..9", "len=10..300", "len>300", "extreme:tied-min-not-at-0", "extreme:tied-max-not-at-0"] {
+            rep.require(r, 1);
+        }
+    }
 }
